@@ -98,6 +98,7 @@ class TTEEntry:
     def __init__(self, instant, exists, own=()):
         self.instant = instant
         self.exists = exists
+        self.init_own = frozenset()
         self.own = set(own)       # {(orientation, op)}
         self.is_int0 = False
         self.touched = False
@@ -163,6 +164,57 @@ class GraphWorld:
                 self._entry(Int("z"), create=True, exists=True).own.add((L, "+"))
             if cfg.get("closed"):
                 self._entry(Int("b", 1), create=True, exists=True).own.add((L, "-"))
+            if cfg.get("prev_run"):
+                # an explicit earlier run [p, q] (q + 2 <= a) with its own events, used by the rejection worlds
+                self.prev = ListObj([Int("p"), Int("q")], persistent=True, tag="interval:previous")
+                self.timeline.items.insert(len(self.timeline.items) - 1, self.prev)
+                if cfg.get("removal", True):
+                    self._entry(Int("p"), create=True, exists=True).own.add((L, "+"))
+                    if cfg.get("prev_closed"):
+                        self._entry(Int("q", 1), create=True, exists=True).own.add((L, "-"))
+                elif not cfg.get("has_prefix"):
+                    # accumulative: the only '+' of the pair sits at its first appearance
+                    for en in self.tte:
+                        en.own.discard((L, "+"))
+                    self._entry(Int("p"), create=True, exists=True).own.add((L, "+"))
+        for en in self.tte:
+            en.init_own = frozenset(en.own)
+        self._heap0 = self._heap_repr()
+
+    # -- net state change (what a rejected call may not leave behind) -------------------------------
+    def _heap_repr(self):
+        def r(x):
+            if isinstance(x, ListObj):
+                return "[" + ",".join(r(i) for i in x.items) + "]"
+            if isinstance(x, DictObj):
+                return "{" + ",".join("%r:%s" % (k, r(v)) for k, v in x.entries.items()) + "}"
+            return repr(x)
+        return r(self.datadict) if self.datadict is not None else ""
+
+    def net_changes(self):
+        """Effects that are still visible in the abstract state: a write that was taken back exactly (an event added and
+        removed again, a list item appended and popped) is not a trace.  Emptied or newly created *empty* buckets of the event
+        log are not observable through the stream and do not count; an int 0 bucket (defaultdict) does."""
+        out = []
+        for eff, line in self.effects:
+            if not (eff[0].startswith("tte_") or eff[0].startswith("heap_")):
+                out.append((eff, line))
+        first_line = {}
+        for eff, line in self.effects:
+            first_line.setdefault(eff[0].split("_")[0], line)
+        for en in self.tte:
+            init = getattr(en, "init_own", frozenset())
+            if frozenset(en.own) != init:
+                out.append((("tte_net", repr(en.instant), "added %s removed %s" % (sorted(set(en.own) - init), sorted(init - set(en.own)))),
+                            first_line.get("tte", 0)))
+            if en.is_int0:
+                out.append((("tte_default_int", repr(en.instant)), first_line.get("tte", 0)))
+        for err in self.errors:
+            if err[0] == "tte_instant_deleted":
+                out.append((("tte_instant_deleted", err[1]), err[-1]))
+        if self._heap_repr() != self._heap0:
+            out.append((("heap_net", "timeline/data dict %s -> %s" % (self._heap0, self._heap_repr())), first_line.get("heap", 0)))
+        return out
 
     # -- choices -------------------------------------------------------------
     def choose(self, key):
@@ -487,7 +539,11 @@ class GraphWorld:
             raise AbstractRaise("TypeError", node, detail="del on the int 0 returned by time_to_edge")
         if isinstance(obj, TTE):
             en = self._entry(key)
-            self.errors.append(("tte_instant_deleted", repr(en.instant), getattr(node, "lineno", 0)))
+            if not en.exists:
+                raise AbstractRaise("KeyError", node, detail="del of an instant that has no bucket")
+            if en.own or en.is_int0 or self.choose(("other_events_at", repr(en.instant))):
+                # events (of this pair or of others) are thrown away with the bucket
+                self.errors.append(("tte_instant_deleted", repr(en.instant), getattr(node, "lineno", 0)))
             self.effect(("tte_del_instant", repr(key)), node)
             en.exists = False
             en.own = set()
@@ -595,6 +651,13 @@ class GraphWorld:
         return None
 
     def truth_of(self, ip, v):
+        if isinstance(v, TTEDict):
+            # the bucket of an instant: non-empty when it holds an event of this pair or of any other pair
+            if v.entry.own:
+                return True
+            return self.choose(("other_events_at", repr(v.entry.instant)))
+        if isinstance(v, ZeroInt):
+            return False
         return None
 
     def type_of(self, ip, v):
@@ -728,6 +791,18 @@ class GraphWorld:
                 elif kwargs:
                     self.effect(("node_attr_update", role), node)
                 return NONE
+            if name == "add_nodes_from" and len(args) == 1 and name not in self.methods:
+                seq = ip._seq(args[0], node)
+                if seq is not None and all(isinstance(x, NodeV) for x in seq):
+                    for x in seq:
+                        if not self.node_exists(x.role):
+                            self.effect(("node_init", x.role, "absent"), node)
+                            self.node_created[x.role] = True
+                            for st in (("succ", "pred") if self.directed else ("adj",)):
+                                self.adj_inited.add((st, x.role))
+                        elif kwargs:
+                            self.effect(("node_attr_update", x.role), node)
+                    return NONE
             if name in self.methods and ip.depth < ip.max_depth:
                 fn = self.methods[name]
                 env = bind_args(fn, self_args(fn) + list(args), kwargs, ip, node)
